@@ -44,7 +44,7 @@ def cases(thorough):
     for b in small:
         for s in SRC:
             for cc in CC:
-                for ac in AC:
+                for ac in (AC if thorough else AC[::2]):
                     for a in FILL_ARGS:
                         out.append(dict(src=s, kinds=b, counter_class=cc, amount_class=ac, const='default', mode='fill', args=a))
     # B: fill under other node constants
@@ -75,7 +75,31 @@ def cases(thorough):
                                     mode='fill', args=FILL_ARGS[i % len(FILL_ARGS)]))
                     out.append(dict(src=s, kinds=b, counter_class=CC[(i + 2) % 5], amount_class=AC[(i // 3) % 5], const='default',
                                     mode='autofill', args=AUTO_ARGS[i % len(AUTO_ARGS)], gas_i=i % 7, sto_i=(i // 7) % 4))
+    # E: any batch size — large batches of cheap contents (transactions to implicit accounts), optionally with one expensive
+    #    content so that the total fee crosses the 2-byte / 3-byte LEB128 boundary 16384; simulated consumed gas chosen so that
+    #    the resulting gas limits end in 9, 1, 0 (per-content rounding of 0.1 mutez/gas accumulates with the batch size)
+    for n in LARGE:
+        for s in SRC:
+            for expensive in (None, 'first', 'last'):
+                kinds = ['tx_implicit'] * n
+                if expensive:
+                    kinds[0 if expensive == 'first' else -1] = 'tx_kt1_params'
+                for res in (9, 1, 0):
+                    for a in ({}, {'gas_reserve': 0, 'burn_reserve': 0}):
+                        # transactions get gas_reserve (default 100) on top of ceil(milligas / 1000)
+                        cheap = (1900 + res) * 1000 if a == {} else (2000 + res) * 1000
+                        gl = [cheap] * n
+                        if expensive:
+                            gl[0 if expensive == 'first' else -1] = (110000 + res) * 1000      # + internal result (half): > 16384 mutez
+                        out.append(dict(src=s, kinds=kinds, counter_class=CC[(n + res) % 5], amount_class=AC[n % 5], const='default',
+                                        mode='autofill', args=a, gas_list=gl, sto_i=0))
+                for a in ({}, {'minimal_nanotez_per_gas_unit': 250}, {'gas_limit': 20009 * n}):
+                    out.append(dict(src=s, kinds=kinds, counter_class=CC[n % 5], amount_class=AC[(n + 1) % 5], const='default',
+                                    mode='fill', args=a))
     return out
+
+
+LARGE = [5, 8, 9, 10, 11, 12, 16, 24, 40]
 
 
 def run_R(ck):
@@ -91,6 +115,8 @@ def run_R(ck):
     thorough = ck.thorough()
     ck.bound('C24_batches', 'all kind sequences of length 1..4 over ' + ', '.join(H.KINDS))
     ck.bound('C24_full_product_up_to_batch_length', 3 if thorough else 2)
+    ck.bound('C24_large_batches', dict(sizes=LARGE, contents='transactions to implicit accounts, optionally one KT1 call (fee > 16384) first or last',
+                                       gas_limit_residues_mod_10=[9, 1, 0], sources=SRC, modes=['autofill', 'autofill with zero reserves', 'fill x 3 argument sets']))
     ck.bound('C24_dimensions', dict(source=SRC, counter_leb_bytes=CC, amount_leb_bytes=AC, constants=list(H.CONSTANTS),
                                     fill_args=[sorted(a) for a in FILL_ARGS], autofill_args=[sorted(a) for a in AUTO_ARGS],
                                     consumed_milligas=H.GAS_GRID, storage=H.STORAGE_GRID))
